@@ -18,12 +18,80 @@ DEFAULTS_SAFE = ['DFLT', [], {}, set(), bytearray(), 'k999999', 'default', [None
 assert len(DEFAULTS) == len(DEFAULTS_SAFE)
 
 
+# IDENTITY COINCIDENCES: op ['P', ['t', tid, mode], kw] / ['K', ['t', tid, mode], kw] passes as `default` a TASK
+# object: mode 0 = the very object last handed to add() for task tid (the stored object itself - None with
+# pop(None), an interned string / small int used as task and as default), mode 1 = an equal but distinct object
+# where Python allows one (alias form 1 / 1.0 / True, a freshly built string).  The default plays no role unless
+# the queue is empty (theorem pop_removes_head_whatever_the_default); then that object comes back.  Either way
+# the returned object is a task object and is observed as `t<tid>`; the model is told "default #(TASK_DEFAULT +
+# tid)" and its driver prints that default as `t<tid>` too.
+TASK_DEFAULT = 1000000
+
+
+def is_task_default(op):
+    return len(op) > 1 and isinstance(op[1], list)
+
+
 def default_idx(op):
+    if is_task_default(op):
+        return TASK_DEFAULT + op[1][1]
     return op[1] % len(DEFAULTS) if len(op) > 1 else 0
+
+
+def default_want(op):
+    """what pop/peek(default) hands back on an EMPTY queue, as an observation"""
+    if is_task_default(op):
+        return 't%d' % op[1][1]
+    return 'd%d' % default_idx(op)
 
 
 def default_of(op, safe=False):
     return (DEFAULTS_SAFE if safe else DEFAULTS)[default_idx(op)]
+
+
+class Odd:
+    """a hashable task with an unusual protocol: falsy (__bool__), empty (__len__ == 0), == / hash by value,
+    not orderable (the queue must never compare tasks: comparisons_never_reach_task)"""
+    __slots__ = ('v',)
+
+    def __init__(self, v):
+        self.v = v
+
+    def __eq__(self, other):
+        return type(other) is type(self) and other.v == self.v
+
+    def __ne__(self, other):
+        return not self == other
+
+    def __hash__(self):
+        return hash(('Odd', self.v))
+
+    def __bool__(self):
+        return False
+
+    def __len__(self):
+        return 0
+
+    def __lt__(self, other):
+        raise TypeError('tasks are not orderable')
+    __le__ = __gt__ = __ge__ = __lt__
+
+    def __repr__(self):
+        return 'Odd(%r)' % (self.v,)
+
+
+class Coll(Odd):
+    """every instance has hash 1 (collides with the tasks 1 / 1.0 / True and with each other), == by value"""
+    __slots__ = ()
+
+    def __hash__(self):
+        return 1
+
+    def __bool__(self):
+        return True
+
+    def __len__(self):
+        return 3
 
 
 # task id -> the hashable objects standing for it (all == and hash-equal within one id)
@@ -43,8 +111,13 @@ TASK_FORMS = {
     93: [()],
     94: [frozenset()],
     95: [b''],
+    # unusual __bool__ / __len__ / __hash__ / ordering (two equal but distinct objects each)
+    96: [Odd(96), Odd(96)],
+    97: [Coll(97), Coll(97)],
+    98: [Coll(98)],
 }
 FALSY_IDS = (90, 91, 92, 93, 94, 95)
+ODD_IDS = FALSY_IDS + (96, 97, 98)      # remap targets of the random histories
 
 
 def task_obj(tid, form=0):
@@ -152,29 +225,33 @@ NUM_PRIOS = [p for p in SMALL_PRIOS if p is not None] + [1e-7, 2e-7, 0.3, 0.1 + 
 
 class C10(Property):
     PID = 'C10'
-    QUICK_BUDGET_S = 38
+    QUICK_BUDGET_S = 50
     THOROUGH_BUDGET_S = 600
-    RULE = ('a case is one whole history. kind Q: add/re-add/remove/pop/peek/len (without default and with each of 12 default objects incl. None, 0, False, '', (), [] - positional and by keyword) run on '
+    RULE = ('a case is one whole history. kind Q: add/re-add/remove/pop/peek/len (without default and with each of 12 default objects incl. None, 0, False, '', (), [] - positional and by keyword - '
+            'and with a TASK OBJECT of the history as default: the very object stored in the queue (None with pop(None), a small int / interned string used as task and as default) or an equal distinct one) run on '
             'SortedPriorityQueue and HeapPriorityQueue with BarrelList._size_factor set to sf (1,2,3,4,6 force many '
             'sub-lists at small sizes; 1520 = shipped value), every return value / exception class recorded, most '
-            'histories end with a full drain. Arguments: tasks of mixed types with aliases (1/1.0/True) and the FALSY '
-            'tasks 0/False/0.0, None, \'\', (), frozenset(), b\'\'; priorities None / omitted / keyword, bool, int (also '
+            'histories end with a full drain. Arguments: tasks of mixed types with aliases (1/1.0/True), the FALSY '
+            'tasks 0/False/0.0, None, \'\', (), frozenset(), b\'\' and objects with an unusual protocol (falsy + len 0 + unorderable; constant hash); '
+            'every call form (add(t), add(t, p), add(t, priority=p), add(task=t, priority=p), add(priority=p, task=t), add(task=t), remove(t), remove(task=t), pop/peek(d), pop/peek(default=d)); priorities None / omitted / keyword, bool, int (also '
             'beyond 2**53), float (also differing only at 1e-9), Fraction, Decimal; optionally a custom priority_key '
             '(4 functions) and a SECOND instance of the same class, created first, with its own key, working interleaved '
             '(checked by the oracle as well). kind B: BarrelList driven directly with the calls the sorted queue makes '
             '(insert at 0..len, pop(0), bl[i] for i<len, len). kind H: the standard library heapq.heappush/heappop (what '
-            'HeapPriorityQueue runs on) on a list of small ints, the whole list observed after every call. Order of generation: ~60 hand-written '
-            'micro histories (unusual arguments, undrained queue then a fresh one, peek/remove/peek, tombstone left '
-            'behind an emptied queue, keys, twin instance), 150 flavoured random histories, adversarial small, all H '
-            'histories <= 5 ops over 3 values + 400 random, all Q histories <= 3 ops over two falsy tasks, all Q '
+            'HeapPriorityQueue runs on) on a list of small ints, the whole list observed after every call. Order of generation: ~115 hand-written '
+            'micro histories (identity coincidences first; unusual arguments, undrained queue then a fresh one, peek/remove/peek, tombstone left '
+            'behind an emptied queue, keys, twin instance), all histories <= 2 ops with a task object as default, CHURN histories (a bounded task set '
+            're-prioritised / removed and re-added until the backend holds ~1.3x / 3.3x thr entries, three quarters of them superseded, then drained; '
+            'thr = 16..512, styles re-add only / same priority / remove+add / mixed with pops), 150 flavoured random histories, adversarial small, all H '
+            'histories <= 5 ops over 3 values + 400 random, all Q histories <= 3 ops over two falsy tasks, all <= 3 ops with task-object defaults (3 task pairs), all Q '
             'histories of <= 4 ops over 2 tasks x 2 priorities (+drain) at sf=1, all B histories <= 6 ops at sf 1,2; '
             'adversarial large (ascending = insert at the very end, descending, all-equal, re-add storms, tombstones '
-            'at the head); large queues (model-checked up to MODEL_MAX adds, beyond that oracle only: 25k quick / 60k '
-            'thorough entries at the shipped size factor); seeded random histories (3-400 ops, many equal priorities). '
+            'at the head); churn at thr = 1000..8192 (up to 17k ops; three of them, up to 4.3k adds, replayed by the model); large queues (model-checked up to MODEL_MAX adds, beyond that oracle only: 25k mixed + 62k RANDOM-priority entries quick (7 sub-lists, splits of inner sub-lists, > 65536 adds) / 60k + 70k '
+            'thorough at the shipped size factor); seeded random histories (3-400 ops, many equal priorities). '
             'Non-trivial = Q: sorted backend split into >= 2 sub-lists AND a pop was decided by FIFO among equal '
             'priorities AND a re-add or remove happened; B: >= 2 sub-lists; H: >= 4 calls. distinct = distinct histories.')
     ASSUMPTIONS = [
-        'tasks are hashable with == consistent with hash; priorities are None or real numbers incl. the float infinities (no NaN, '
+        'tasks are hashable with == consistent with hash (their truth value, len and ordering are free); priorities are None or real numbers incl. the float infinities (no NaN, '
         '|int| < 2**1024); priority_key = the documented default (-float(priority or 0)) or one of 4 total functions',
         'the Lean driver receives every None/bool/int/float priority as passed to add() (floats as their exact dyadic '
         'value; +-inf as +-2**1100, an order-preserving stand-in) and evaluates float(priority or 0) itself; only for Fraction/Decimal priorities and for a custom '
@@ -188,20 +265,25 @@ class C10(Property):
     def __init__(self, tier, seed):
         super().__init__(tier, seed)
         self.MODEL_MAX = 4000 if self.thorough else 1200   # adds per history the Lean model is asked to replay
+        self.MODEL_CHURN_MAX = 6000                        # the same for the few churn histories marked 'model'
         self._nt = False
 
     # ------------------------------------------------------------------ generation
     def cases(self, budget_s):
         rng = self.rng
         yield from self.micro()
+        yield from self.exhaustive_alias(2)
+        yield from self.churn_family(rng, 'small')
         for _ in range(150):
             yield self.random_q(rng, flavour=True)
         yield from self.adversarial(rng, small=True)
         yield from self.heap_cases(rng)
         yield from self.exhaustive_q(3, tasks=(90, 91))
+        yield from self.exhaustive_alias(3)
         yield from self.exhaustive_q(4)
         yield from self.exhaustive_b(6 if not self.thorough else 7)
         yield from self.adversarial(rng, small=False)
+        yield from self.churn_family(rng, 'big')
         yield from self.large(rng)
         n_rand = 200000 if self.thorough else 12000
         for i in range(n_rand):
@@ -211,17 +293,30 @@ class C10(Property):
         if self.thorough:
             yield from self.exhaustive_q(5)
             yield from self.exhaustive_q(4, tasks=(92, 90))
+            yield from self.exhaustive_alias(4, pairs=((0, 1), (91, 20)))
+            yield from self.churn_family(rng, 'huge')
 
     def deep_cases(self, budget_s):
         rng = self.rng
         yield from self.micro()
+        yield from self.exhaustive_alias(3)
+        yield from self.churn_family(rng, 'small')
         yield from self.adversarial(rng, small=True)
         yield from self.adversarial(rng, small=False)
+        yield from self.churn_family(rng, 'big')
         yield from self.exhaustive_q(4)
         yield from self.exhaustive_b(7)
+        yield from self.large(rng, deep=True)
+        yield from self.churn_family(rng, 'huge')
+        i = 0
         while True:
+            i += 1
             yield self.random_q(rng, big=rng.random() < 0.15)
             yield self.random_b(rng)
+            if i % 400 == 0:
+                # keep churning at the internal-threshold sizes with fresh random choices
+                thr = rng.choice([64, 100, 128, 256, 500, 512, 1000, 1024, 2048, 4096, 8192, 10000])
+                yield self.churn(rng, thr, rng.choice(['readd', 'mixed', 'same', 'remove']), factor=rng.choice([1.3, 2.4, 3.3]))
 
     DRAIN = [['P'], ['P', 3, 1], ['P', 2, 0], ['K', 1, 1], ['P', 1, 0], ['n']]
 
@@ -234,6 +329,23 @@ class C10(Property):
         def q(ops, sf=1, **kw):
             return dict({'k': 'Q', 'sf': sf, 'ops': ops}, **kw)
         drain = [['p'], ['P', 3, 1], ['K', 1, 1], ['P', 1, 0], ['n']]
+        # identity coincidences: the `default` IS the head task object (None with pop(None), a small int / an
+        # interned string used as task and as default), or equals it; the task must come back AND leave the queue
+        for tid in (91, 0, 1, 20, 92, 96, 97):
+            for kw in (0, 1):
+                same, equal = ['t', tid, 0], ['t', tid, 1]
+                yield q([['a', tid, 1], ['a', 21, 0], ['P', same, kw], ['n'], ['P', same, kw], ['n'], ['P', same, kw], ['n']] + drain)
+                yield q([['a', 21, 0], ['a', tid, 1], ['K', same, kw], ['n'], ['P', equal, kw], ['n'], ['k'], ['p'], ['P', equal, 1 - kw]] + drain, sf=2)
+                yield q([['a', tid, 0], ['P', same, kw], ['P', same, kw], ['n'], ['a', tid, 2, 1], ['a', 22, 2], ['P', same, kw], ['P', same, kw], ['n']] + drain)
+                # the default is a task that is queued but NOT at the head / was removed / was never added
+                yield q([['a', 21, 5], ['a', tid, 1], ['P', same, kw], ['n'], ['r', tid], ['P', same, kw], ['n'], ['P', ['t', 23, 0], kw], ['K', same, kw]] + drain)
+        # call forms: every argument by keyword, in either order; remove(task=...)
+        yield q([['a', 1, 5, 0, 3], ['a', 2, 7, 0, 4], ['a', 3, None, 0, 5], ['a', 1, 9, 0, 4], ['r', 2, 0, 1], ['r', 2, 0, 1], ['n']] + [['p']] * 2 + drain)
+        yield q([['a', 0, 2, 1, 3], ['a', 91, None, 0, 5], ['a', 96, 1, 1, 4], ['r', 0, 2, 1], ['a', 97, 1, 1, 3], ['a', 98, 1, 0, 4], ['r', 97, 0, 1],
+                 ['a', 97, 1, 0, 3], ['n']] + [['p']] * 4 + drain, sf=2)
+        # tasks with an unusual protocol (falsy, len 0, constant hash, not orderable) at equal priorities
+        yield q([['a', 96, 1], ['a', 97, 1], ['a', 98, 1], ['a', 0, 1], ['a', 96, 1, 1], ['k'], ['n']] + [['p']] * 4 + drain)
+        yield q([['a', 97, 0], ['a', 98, 0], ['a', 0, 0], ['r', 98], ['a', 97, 0, 1], ['P', ['t', 97, 1], 0], ['P', ['t', 97, 0], 1], ['n']] + drain)
         # not drained, then a fresh queue must be empty
         yield q([['a', 1, 1], ['a', 20, 0], ['n']])
         yield q([['n'], ['k'], ['P', 1, 1], ['r', 1], ['r', 20]])
@@ -319,6 +431,90 @@ class C10(Property):
             for hist in itertools.product(alpha, repeat=n):
                 yield {'k': 'Q', 'sf': 1, 'ops': [list(o) for o in hist] + self.DRAIN}
 
+    def exhaustive_alias(self, L, pairs=((0, 1), (91, 20), (92, 97))):
+        """all histories <= L ops in which pop/peek get a TASK object as default (the stored object itself),
+        positional and by keyword, next to add / remove / pop / len"""
+        for ta, tb in pairs:
+            alpha = [['a', ta, 0], ['a', ta, 1], ['a', tb, 0], ['a', tb, 1], ['r', ta], ['p'], ['n'],
+                     ['P', ['t', ta, 0], 0], ['P', ['t', tb, 0], 1], ['K', ['t', ta, 0], 1]]
+            tail = [['n'], ['P', ['t', ta, 0], 1], ['n'], ['P', ['t', tb, 0], 0], ['n'], ['P', ['t', ta, 1], 0], ['P', 0, 0], ['n']]
+            for n in range(1, L + 1):
+                for hist in itertools.product(alpha, repeat=n):
+                    if any(o[0] in 'PK' for o in hist):
+                        yield {'k': 'Q', 'sf': 1, 'ops': [list(o) for o in hist] + tail}
+
+    def churn(self, rng, thr, style, factor=1.3, model=False):
+        """a BOUNDED task set re-prioritised / removed and re-added over and over until the backend holds
+        about factor * thr entries, most of them superseded (tombstones far outnumber the live ones and sit
+        INSIDE the backend, not at its head) - the regime in which a clean-up step (compaction, rebuild,
+        re-heapify, counter restart) at an internal threshold thr would run; then everything is drained.
+        styles: readd = only add() of queued tasks with random priorities; same = re-adds that keep the
+        priority (FIFO decides); remove = remove() + later add(); mixed = all of it plus rare pop / peek / len"""
+        L = max(3, thr // 4)
+        if style == 'same':
+            def prio(t):
+                return t % 7
+        elif rng.random() < 0.3:
+            def prio(t):
+                return rng.choice([0, 1, 2])
+        else:
+            def prio(t):
+                return rng.randrange(100)
+        odd = rng.random() < 0.5        # a few of the tasks are None / 0 / '' / () / objects with an unusual protocol
+
+        def tid(i):
+            return ODD_IDS[i] if odd and i < len(ODD_IDS) else 10 + i
+        ops = [['a', tid(i), prio(i)] for i in range(L)]
+        adds, target, gone = L, int(thr * factor) + 8, []
+        while adds < target:
+            r = rng.random()
+            t = rng.randrange(L)
+            if style in ('readd', 'same') or r < 0.55:
+                ops.append(['a', tid(t), prio(t)])
+                adds += 1
+            elif r < 0.8 or style == 'remove':
+                if gone and rng.random() < 0.6:
+                    t = gone.pop(rng.randrange(len(gone)))
+                    ops.append(['a', tid(t), prio(t)])
+                    adds += 1
+                else:
+                    ops.append(['r', tid(t)])
+                    gone.append(t)
+            elif r < 0.9:
+                ops.append(['p'])
+            elif r < 0.95:
+                ops.append(['k'])
+            else:
+                ops.append(['n'])
+        ops += [['n'], ['k']] + [['p']] * (L + 1) + [['P', 1, 1], ['n']]
+        # a small size factor only for small backends (thousands of sub-lists make every index translation slow)
+        case = {'k': 'Q', 'sf': rng.choice([4, 1520, 1520]) if thr <= 1024 else 1520, 'ops': ops}
+        if model:
+            case['model'] = 1       # replayed by the Lean driver although longer than MODEL_MAX adds
+        return case
+
+    def churn_family(self, rng, which):
+        if which == 'small':
+            for thr in (16, 64, 100, 128, 256, 512):
+                for style in ('readd', 'mixed', 'remove', 'same'):
+                    yield self.churn(rng, thr, style)
+            for thr in (64, 256):
+                yield self.churn(rng, thr, 'readd', factor=3.3)      # past several multiples of the threshold
+        elif which == 'big':
+            for thr in (1000, 1024, 2048, 4096, 8192):
+                for style in ('readd', 'mixed'):
+                    yield self.churn(rng, thr, style, factor=1.05 if thr == 4096 else 1.3,
+                                     model=(thr == 2048 or (thr == 4096 and style == 'readd')))
+            yield self.churn(rng, 1024, 'remove')
+            yield self.churn(rng, 4096, 'same')
+            yield self.churn(rng, 2048, 'mixed', factor=3.3)
+            yield self.churn(rng, 4096, 'readd', factor=2.4)
+        else:
+            for thr in (8192, 10000, 16384, 32768) + ((65536,) if self.thorough else ()):
+                for style in ('readd', 'mixed'):
+                    yield self.churn(rng, thr, style, factor=1.3)
+            yield self.churn(rng, 16384, 'readd', factor=3.3)
+
     def exhaustive_b(self, L):
         """all sequences of insert(i, fresh) for 0<=i<=len and pop(0); the runner observes len and every item after each op"""
         def rec(prefix, ln, nxt, depth):
@@ -371,10 +567,12 @@ class C10(Property):
             # remap some task ids to the falsy tasks
             ids = sorted({op[1] for op in case['ops'] if op[0] in 'ar'})
             rng.shuffle(ids)
-            remap = dict(zip(ids, rng.sample(FALSY_IDS, min(len(ids), rng.randint(1, 6)))))
+            remap = dict(zip(ids, rng.sample(ODD_IDS, min(len(ids), rng.randint(1, 6)))))
             for op in case['ops']:
                 if op[0] in 'ar' and op[1] in remap:
                     op[1] = remap[op[1]]
+                elif op[0] in 'PK' and is_task_default(op) and op[1][1] in remap:
+                    op[1][1] = remap[op[1][1]]
         if (flavour or rng.random() < 0.1) and rng.random() < 0.5:
             tkey = rng.choice([None, None, 'ident', 'affine', 'absd', 'coarse'])
             case['twin'] = {'key': tkey, 'ops': self._random_q(rng, False, tkey, more=True, drain=rng.random() < 0.5)['ops']}
@@ -428,26 +626,31 @@ class C10(Property):
                 op = ['r', t]
                 if t in TASK_FORMS and rng.random() < 0.3:
                     op.append(rng.randrange(3))
+                if rng.random() < 0.1:
+                    op += [0] * (3 - len(op)) + [1]       # remove(task=...)
                 ops.append(op)
             elif r < w_add + w_readd + w_rem + w_pop:
-                ops.append(self._take(rng, 'p'))
+                ops.append(self._take(rng, 'p', tasks=maybe_live))
             elif r < w_add + w_readd + w_rem + w_pop + w_peek:
-                ops.append(self._take(rng, 'k'))
+                ops.append(self._take(rng, 'k', tasks=maybe_live))
             else:
                 ops.append(['n'])
         if (rng.random() < 0.8) if drain is None else drain:
-            ops += [self._take(rng, 'p', 1.0) for _ in range(len(set(maybe_live)) + 1)]
-            ops += [self._take(rng, 'k', 1.0), self._take(rng, 'p', 1.0), ['n']]
+            ops += [self._take(rng, 'p', 1.0, tasks=maybe_live) for _ in range(len(set(maybe_live)) + 1)]
+            ops += [self._take(rng, 'k', 1.0, tasks=maybe_live), self._take(rng, 'p', 1.0, tasks=maybe_live), ['n']]
         case = {'k': 'Q', 'sf': sf, 'ops': ops}
         if key:
             case['key'] = key
         return case
 
     @staticmethod
-    def _take(rng, kind, p_default=0.5):
-        """pop/peek op: without default, or with a random default object, positional or keyword"""
+    def _take(rng, kind, p_default=0.5, tasks=None):
+        """pop/peek op: without default, or with a random default object - one of the DEFAULTS or, one time
+        in four, a task object of this history (the stored object itself or an equal one) - positional or keyword"""
         if rng.random() >= p_default:
             return [kind]
+        if tasks and rng.random() < 0.25:
+            return [kind.upper(), ['t', rng.choice(tasks), rng.randrange(2)], rng.randrange(2)]
         return [kind.upper(), rng.randrange(len(DEFAULTS)), rng.randrange(2)]
 
     @staticmethod
@@ -456,9 +659,10 @@ class C10(Property):
         op = ['a', t, p]
         if t in TASK_FORMS and rng.random() < 0.3:
             op.append(rng.randrange(3))
-        if rng.random() < 0.15:
-            # call style: 1 = add(task, priority=p), 2 = add(task) (only when the priority is None)
-            op += [0] * (4 - len(op)) + [2 if p is None and rng.random() < 0.7 else 1]
+        if rng.random() < 0.2:
+            # call style: 1 = add(task, priority=p), 2 = add(task) (only when the priority is None),
+            # 3 = add(task=t, priority=p), 4 = add(priority=p, task=t), 5 = add(task=t) (priority None)
+            op += [0] * (4 - len(op)) + [rng.choice([2, 2, 5]) if p is None and rng.random() < 0.7 else rng.choice([1, 1, 3, 4])]
         ops.append(op)
 
     def adversarial(self, rng, small):
@@ -496,19 +700,29 @@ class C10(Property):
                 yield {'k': 'B', 'sf': sf, 'ops': [['i', i, i] for i in range(n)] + [['p', 0]] * n + [['n']], 'obs_all': 0}
                 yield {'k': 'B', 'sf': sf, 'ops': [['i', 0, i] for i in range(n)] + [['p', 0]] * n + [['n']], 'obs_all': 0}
 
-    def large(self, rng):
+    def large(self, rng, deep=False):
         """queues of thousands of entries; the biggest ones (shipped size factor, > 1 sub-list needs > ~21k
-        entries) are oracle-only"""
+        entries, a split of a sub-list that is NOT the last one needs ~45k entries whose priorities are not
+        monotone) are oracle-only"""
         plan = [(1000, 4), (1200, 1520)] if not self.thorough else [(4000, 4), (4000, 1520), (2500, 1)]
-        big = [25000] if not self.thorough else [60000, 30000]
+        big = [(25000, 'mixed'), (62000, 'random')] if not self.thorough else [(60000, 'mixed'), (30000, 'mixed'), (70000, 'random')]
+        if deep:
+            plan, big = [(1200, 1520)], [(62000, 'random'), (25000, 'mixed'), (64000, 'fewrandom')]
         for n, sf in plan + [(b, 1520) for b in big]:
-            style = rng.choice(['asc', 'rand']) if n < 20000 else 'mixed'
+            if isinstance(n, tuple):
+                n, style = n
+            else:
+                style = rng.choice(['asc', 'rand'])
             ops = []
             for i in range(n):
                 if style == 'asc':
                     p = -(i // 3)
                 elif style == 'rand':
                     p = rng.choice([0, 1, 2, 3, 4.5])
+                elif style == 'random':
+                    p = rng.randint(-n, n) if i % 16 else rng.uniform(-n, n)
+                elif style == 'fewrandom':
+                    p = rng.randrange(200)
                 else:
                     p = -(i // 2) if i % 5 else rng.randint(-n, 0)
                 ops.append(['a', 10 + i, p])
@@ -545,7 +759,7 @@ class C10(Property):
                     toks.append('n')
                     toks.extend('g%d' % i for i in range(ln))
             return ' '.join(toks)
-        if sum(1 for op in ops if op[0] == 'a') > self.MODEL_MAX:
+        if sum(1 for op in ops if op[0] == 'a') > (self.MODEL_CHURN_MAX if case.get('model') else self.MODEL_MAX):
             return None
         key = case.get('key')
         toks = ['Q', str(case['sf'])]
@@ -677,34 +891,64 @@ class C10(Property):
         return str(v) if type(v) is int else '?%r' % (v,)
 
     @staticmethod
-    def _apply(q, op, safe):
-        """one public call on the real queue -> its observation (return value / exception class)"""
+    def _task_default(op, mem):
+        """the task object handed in as `default` (see TASK_DEFAULT above)"""
+        _, tid, mode = (op[1] + [0])[:3]
+        last = mem.get(tid)
+        if not mode:
+            return last[0] if last is not None else task_obj(tid)
+        if tid in TASK_FORMS:
+            return task_obj(tid, (last[1] if last is not None else 0) + 1)
+        return 'k%d' % tid          # built at run time: equal to, never identical with, the stored string
+
+    @staticmethod
+    def _apply(q, op, safe, mem=None):
+        """one public call on the real queue -> its observation (return value / exception class).
+        mem: task id -> (object, form) last handed to add() on this queue"""
         kind = op[0]
+        if mem is None:
+            mem = {}
         try:
             if kind == 'a':
-                t = task_obj(op[1], op[3] if len(op) > 3 else 0)
+                form = op[3] if len(op) > 3 else 0
+                t = task_obj(op[1], form)
                 style = op[4] if len(op) > 4 else 0
                 pr = prio_obj(op[2])
+                mem[op[1]] = (t, form)
                 if style == 2 and pr is None:
                     q.add(t)
                 elif style == 1:
                     q.add(t, priority=pr)
+                elif style == 3:
+                    q.add(task=t, priority=pr)
+                elif style == 4:
+                    q.add(priority=pr, task=t)
+                elif style == 5 and pr is None:
+                    q.add(task=t)
                 else:
                     q.add(t, pr)
                 # the statement constrains what pop/peek/len return, not what add()/remove() hand back
                 # (None today): a completed call is '-', whatever it returned
                 return '-'
             if kind == 'r':
-                q.remove(task_obj(op[1], op[2] if len(op) > 2 else 0))
+                t = task_obj(op[1], op[2] if len(op) > 2 else 0)
+                if len(op) > 3 and op[3]:
+                    q.remove(task=t)
+                else:
+                    q.remove(t)
                 return '-'
 
             if kind in 'pPkK':
                 f = q.pop if kind in 'pP' else q.peek
                 if kind in 'PK':
-                    d = default_of(op, safe)
-                    r = f(default=d) if len(op) > 2 and op[2] else f(d)
-                    if r is d:
-                        return 'd%d' % default_idx(op)
+                    if is_task_default(op):
+                        d = C10._task_default(op, mem)
+                        r = f(default=d) if len(op) > 2 and op[2] else f(d)
+                    else:
+                        d = default_of(op, safe)
+                        r = f(default=d) if len(op) > 2 and op[2] else f(d)
+                        if r is d:
+                            return 'd%d' % default_idx(op)
                 else:
                     r = f()
                 t = task_id(r)
@@ -735,17 +979,18 @@ class C10(Property):
         for name, cls in (('S', SortedPriorityQueue), ('H', HeapPriorityQueue)):
             out, out2 = [], []
             try:
-                with time_limit(10 if len(case['ops']) < 20000 else 120):
+                with time_limit(10 if len(case['ops']) < 5000 else 120):
                     # the second instance (if any) is created FIRST and works interleaved with the observed one
                     q2 = self._make(cls, twin.get('key')) if twin else None
                     q = self._make(cls, case.get('key'))
                     tops = twin['ops'] if twin else []
+                    mem, mem2 = {}, {}
                     for i, op in enumerate(case['ops']):
-                        out.append(self._apply(q, op, safe))
+                        out.append(self._apply(q, op, safe, mem))
                         if i < len(tops):
-                            out2.append(self._apply(q2, tops[i], safe))
+                            out2.append(self._apply(q2, tops[i], safe, mem2))
                     for op in tops[len(case['ops']):]:
-                        out2.append(self._apply(q2, op, safe))
+                        out2.append(self._apply(q2, op, safe, mem2))
                     if name == 'S':
                         maxlists = len(getattr(getattr(q, '_pq', None), 'lists', ()) or ())
             except CaseTimeout:
@@ -875,7 +1120,7 @@ class C10(Property):
                 tag = 'remove'
             elif kind in 'pPkK':
                 if not live:
-                    want = 'd%d' % default_idx(op) if kind in 'PK' else 'IndexError'
+                    want = default_want(op) if kind in 'PK' else 'IndexError'
                     tag = 'empty'
                 else:
                     t = order[0][2]
@@ -933,13 +1178,17 @@ class C10(Property):
         for op in ops:
             st['op_' + op[0]] = st.get('op_' + op[0], 0) + 1
             if op[0] in 'PK':
-                dk = 'default_%r_%s' % (default_of(op, safe), 'kw' if len(op) > 2 and op[2] else 'pos')
+                dk = 'default_%s_%s' % ('is_task_object' if is_task_default(op) and not (op[1] + [0])[2] else
+                                        'equals_task_object' if is_task_default(op) else repr(default_of(op, safe)),
+                                        'kw' if len(op) > 2 and op[2] else 'pos')
                 st[dk] = st.get(dk, 0) + 1
             elif op[0] == 'a':
                 if len(op) > 4 and op[4]:
                     st['add_style_%d' % op[4]] = st.get('add_style_%d' % op[4], 0) + 1
                 pk = 'prio_' + type(prio_obj(op[2])).__name__
                 st[pk] = st.get(pk, 0) + 1
+            elif op[0] == 'r' and len(op) > 3 and op[3]:
+                st['remove_kw'] = st.get('remove_kw', 0) + 1
         for g in obs['S']:
             k = g if g in ('KeyError', 'IndexError') else ('d' if g[:1] == 'd' else None)
             if k:
